@@ -1,5 +1,7 @@
 """C02 - loops and branches mean the same wherever nested (C02.R1-R4)."""
 from .. import emit, flow, mir, templates
+import re
+
 from ..core import CheckError
 from . import common, c15
 
@@ -15,11 +17,14 @@ EXPLANATION = (
     "inside the bracket; (R4) loop templates: every loop jumps back to its own head label and tests "
     "its condition on every iteration (the back-edge jump and the exit jump are both present); (R5) "
     "label(), jump() and jump_if_false() build names from one template in which every interpolated "
-    "field is delimited, so the name is injective in (prefix, position).")
+    "field is delimited, so the name is injective in (prefix, position); (R6) template reachability, "
+    "decided by a path-sensitive symbolic walk of each construct template with computed label names "
+    "(else-if-N, caseN, case-multi-expr-N-M) kept as terms: every label emitted right after an "
+    "unconditional jump is targeted by a jump on the same emission path, every jump target is "
+    "emitted exactly once, nothing is emitted dead after an unconditional jump.")
 NOT_DECIDED = [
     "the listed rewrite equivalences themselves (FOR = WHILE, SELECT = IF chain ...): relational "
     "properties of run-time behaviour",
-    "labels with names computed at generation time (else-if-N, caseN)",
 ]
 
 
@@ -257,6 +262,124 @@ def r5_label_names_injective(ctx, rule="C02.R5"):
     ctx.require(rule, 4)
 
 
+def r6_template_reachability(ctx, rule="C02.R6"):
+    """On every emission path of a construct template (IF, SELECT CASE, WHILE, DO, FOR, DIM):
+    (a) every piece of user code the template emits (a statement block or an expression) is
+    reachable in the emitted code - by fall-through or through a jump / jump_if_false whose label
+    term equals the term of a label emitted on the same path; an ELSEIF / CASE whose label nobody
+    targets can never run; (b) every reachable jump targets a label that is emitted exactly once on
+    the path.  Label names are compared as terms (name template + index term + position term);
+    loops are walked from their concrete start and, per loop, from a symbolic index (consecutive
+    iterations k, k+1).  Dead labels or dead non-user instructions alone are not reported: they do
+    not change behaviour."""
+    from .. import sympath
+    prog = ctx.prog
+    _PROG[0] = prog
+    w = sympath.Walker(prog)
+    import json
+    import os
+    from ..core import VERIF
+    table = json.load(open(os.path.join(VERIF, "tables", "template_assumptions.json")))
+    w.nonempty = {(e["fn"], e["var"]) for e in table["nonempty"]}
+    roots = w.roots()
+    if len(roots) < 5:
+        raise CheckError("construct templates not found: %s" % [r.name for r in roots])
+    results = {}     # obligation key -> [ok paths, bad witness]
+
+    def note(key, loc, ok, why):
+        r = results.setdefault(key, [0, None, loc])
+        if ok:
+            r[0] += 1
+        elif r[1] is None:
+            r[1] = why
+
+    def check_path(root, lid):
+        def on_path(st):
+            tr = st.trace
+            labels = {}
+            for it in tr:
+                if it.kind == "label":
+                    labels.setdefault(it.key(), []).append(it)
+            # induction hypothesis of the generic walk: iteration k of the designated loop is entered
+            seeds = [i for i, it in enumerate(tr) if lid is not None and it.iters.get(lid) == 1][:1]
+            live = sympath.reachable_items(tr, seeds)
+            conds = "; ".join(st.facts.describe())
+            ordinal = {}
+            for i, it in enumerate(tr):
+                in_scope = lid is None or it.iters.get(lid) == 2
+                nm = sympath.show(it.name)
+                loc = "%s:%s" % (it.fn.file, it.line)
+                if it.kind == "emit" and it.sub in ("BLOCK", "STMT", "EXPR", "USER") and in_scope:
+                    key = "%s:%s:%s@%s:reachable" % (rule, it.fn.name, it.sub, _site(it))
+                    dead_label = ""
+                    if i not in live:
+                        j = i
+                        while j >= 0 and tr[j].kind != "label":
+                            j -= 1
+                        targets = sorted({sympath.show(x.name) for k, x in enumerate(tr)
+                                          if x.kind in ("jump", "jump_if_false") and k in live})
+                        dead_label = ("it follows label %s which no reachable jump targets (reachable "
+                                      "targets: %s)" % (sympath.show(tr[j].name), targets)) if j >= 0 else \
+                            "it follows an unconditional jump with no label in between"
+                    note(key, loc, i in live,
+                         "the user code emitted here (%s) can never run: %s, when %s"
+                         % (nm, dead_label, conds))
+                elif it.kind in ("jump", "jump_if_false") and lid is None and i in live:
+                    n = len(labels.get(it.key(), ()))
+                    note("%s:%s:%s(%s):emitted-once" % (rule, it.fn.name, it.kind, _tmpl(it.name)), loc,
+                         n == 1,
+                         "%s targets %s which is emitted as a label %d times on the same emission path "
+                         "(labels: %s) when %s" % (it.kind, nm, n,
+                                                   sorted({sympath.show(k[0]) for k in labels}), conds))
+        return on_path
+
+    n_paths = 0
+    n_generic = 0
+    try:
+        for root in roots:
+            n_paths += w.walk(root, None, check_path(root, None))
+            for lid in w.loops_of(root):
+                n_generic += w.walk(root, lid, check_path(root, lid))
+    except sympath.Budget as e:
+        raise CheckError("%s: path budget exceeded (%s)" % (rule, e))
+    for key in sorted(results):
+        okn, bad, loc = results[key]
+        ctx.decide(bad is None, rule, key, loc, "holds on %d emission paths" % okn, bad or "")
+    for e in table["nonempty"]:
+        if (e["fn"], e["var"]) not in w.used_assumptions:
+            raise CheckError("%s: assumption on %s.%s no longer matches the code" % (rule, e["fn"], e["var"]))
+        ctx.notes.append("%s assumes %s.%s non-empty: %s" % (rule, e["fn"], e["var"], e["why"]))
+    ctx.analysed_units(rule, templates=[r.name for r in roots], concrete_paths=n_paths,
+                       generic_loop_paths=n_generic, obligations=len(results))
+    ctx.require(rule, 20)
+
+
+def _site(it):
+    """line-independent site id of an emission: the source text of the emitted operand is not in the
+    facts, so sites are numbered by source order inside their function."""
+    lines = sorted({e.line for e in _SITE_EVS(it.fn) if e.kind == it.sub or (it.sub == "USER" and e.kind == "gen")})
+    return "#%d" % lines.index(it.line) if it.line in lines else "?"
+
+
+def _SITE_EVS(fn, _cache={}):
+    if fn.id not in _cache:
+        _cache[fn.id] = list(emit.events(fn.prog if hasattr(fn, "prog") else _PROG[0], fn).values())
+    return _cache[fn.id]
+
+
+_PROG = [None]
+
+
+def _tmpl(t):
+    """label-name term with its index terms abstracted: the obligation key must not depend on the
+    iteration that exhibits it."""
+    if t[0] == "s":
+        return re.sub(r"\d+", "N", t[1])
+    if t[0] == "fmt":
+        return "".join(re.sub(r"\d+", "N", i[1]) if i[0] == "lit" else "N" for i in t[1])
+    return "<%s>" % t[0]
+
+
 def run(ctx):
     common.install(ctx)
     T = templates.Templates(ctx.prog)
@@ -265,3 +388,4 @@ def run(ctx):
     r3_register_frames(ctx, T)
     r4_loop_templates(ctx, T)
     r5_label_names_injective(ctx)
+    r6_template_reachability(ctx)
